@@ -212,6 +212,15 @@ def random_rot(rng):
             [2 * (x * z - y * w), 2 * (y * z + x * w), 1 - 2 * (x * x + y * y)]]
 
 
+def axis_angle(ax, ang):
+    """rotation matrix (floats) about the unit axis ax by the angle ang (Rodrigues)"""
+    c, si = math.cos(ang), math.sin(ang)
+    x, y, z = ax
+    return [[c + x * x * (1 - c), x * y * (1 - c) - z * si, x * z * (1 - c) + y * si],
+            [y * x * (1 - c) + z * si, c + y * y * (1 - c), y * z * (1 - c) - x * si],
+            [z * x * (1 - c) - y * si, z * y * (1 - c) + x * si, c + z * z * (1 - c)]]
+
+
 def unit(v):
     n = math.sqrt(sum(x * x for x in v))
     return [x / n for x in v]
@@ -401,10 +410,15 @@ def gen_pair(rng, fn, stream=None):
        touch    B is moved so that a (special) point of B coincides with a (special) point of A
        same     both primitives share the reference point and the frame (coincident / nested)
        rotlat   a lattice placement moved by one random rigid motion (nearly degenerate in float)
+       shallow  a lattice / coincident placement in which B is then turned by a tiny angle
+                (1e-7 .. 5e-3 rad) about a random axis through its reference point, or (point_to_X)
+                the point is a special point of B / a point of B's axis moved by a tiny offset:
+                inputs INSIDE the epsilon bands of the parallel / on-axis tests
     """
     ka, kb = kinds_of(fn)
     if stream is None:
-        stream = rng.choice(["random", "random", "far", "lattice", "lattice", "lattice", "touch", "touch", "same", "rotlat"])
+        stream = rng.choice(["random", "random", "far", "lattice", "lattice", "lattice", "touch", "touch", "same", "rotlat",
+                             "shallow"])
     for _ in range(100):
         if stream in ("random", "far"):
             s = rand_size(rng)
@@ -429,6 +443,28 @@ def gen_pair(rng, fn, stream=None):
                 Rm = random_rot(rng)
                 t = [rng.uniform(-5, 5) for _ in range(3)]
                 A, B = rigid(A, Rm, t), rigid(B, Rm, t)
+        elif stream == "shallow":
+            o = [rng.choice([0.0, 0.0, 1.0, -2.0]) for _ in range(3)]
+            A = gen_prim(rng, ka, "lattice", o)
+            if ka == "point":
+                B = gen_prim(rng, kb, "lattice", [o[i] + rng.choice([0.0, 0.0, 1.0, -0.5]) for i in range(3)])
+                q = sample_point_on(rng, B, special=True)
+                ns = normals_of(B)
+                if ns and rng.random() < 0.6:       # a point of the axis through the centre
+                    n = unit([float(x) for x in ns[-1]])
+                    h = rng.choice([0.0, 0.5, -1.0, 2.0])
+                    q = [centre(B)[i] + h * n[i] for i in range(3)]
+                dv = unit([rng.gauss(0, 1) for _ in range(3)])
+                mag = 10 ** rng.uniform(-9, -2)
+                A = dict(kind="point", p=[q[i] + mag * dv[i] for i in range(3)])
+            else:
+                B = gen_prim(rng, kb, "lattice", [o[i] + rng.choice([0.0, 0.0, 0.0, 0.25, -0.5, 1.0]) for i in range(3)])
+                ax = unit([rng.gauss(0, 1) for _ in range(3)])
+                ang = 10 ** rng.uniform(-7, -2.3)
+                Rm = axis_angle(ax, ang)
+                cB = centre(B)
+                rc = matvec(Rm, cB)
+                B = rigid(B, Rm, [cB[i] - rc[i] for i in range(3)])
         elif stream == "touch":
             mode = rng.choice(["lattice", "random"])
             o = [rng.choice([0.0, 1.0, -2.0]) for _ in range(3)] if mode == "lattice" else [rng.uniform(-20, 20) for _ in range(3)]
